@@ -15,6 +15,33 @@ thread_local! {
     static LAST_PANIC: RefCell<String> = const { RefCell::new(String::new()) };
 }
 
+thread_local! {
+    static LAST_API: RefCell<String> = const { RefCell::new(String::new()) };
+}
+
+/// The innermost hydro_lang live-collection / location API function on the panicking stack that is not a
+/// constructor or an internal helper, e.g. `stream::Stream<T,L,B,O,R>::filter_not_in`.
+fn api_frame(bt: &str) -> String {
+    for line in bt.lines() {
+        let l = line.trim();
+        let Some((_, name)) = l.split_once(": ") else { continue };
+        if !(name.starts_with("hydro_lang::live_collections::") || name.starts_with("hydro_lang::location::")
+            || name.starts_with("<hydro_lang::"))
+        {
+            continue;
+        }
+        let last = name.rsplit("::").next().unwrap_or("");
+        if ["new", "collection_kind", "{{closure}}", "new_node_metadata", "tracked_ir_node"].contains(&last) {
+            continue;
+        }
+        return name
+            .trim_start_matches("hydro_lang::live_collections::")
+            .trim_start_matches("hydro_lang::")
+            .to_string();
+    }
+    String::new()
+}
+
 struct St {
     out_dir: String,
     c42: bool,
@@ -67,9 +94,10 @@ fn run_flow(st: &mut St, name: &str, driver: &str, f: impl Fn(&Cell<u32>) -> syn
         }
         Err(_) => {
             let msg = LAST_PANIC.with(|p| p.borrow().clone());
+            let api = LAST_API.with(|p| p.borrow().clone());
             st.status.insert(
                 name.to_string(),
-                serde_json::json!({"status": "panic", "stage": stage.get(), "message": msg}),
+                serde_json::json!({"status": "panic", "stage": stage.get(), "message": msg, "api": api}),
             );
             if st.c42 {
                 st.c42_out.insert(name.to_string(), serde_json::json!(["panic", msg]));
@@ -90,6 +118,8 @@ fn main() {
     std::panic::set_hook(Box::new(|info| {
         let s = info.to_string();
         LAST_PANIC.with(|p| *p.borrow_mut() = s);
+        let bt = std::backtrace::Backtrace::force_capture().to_string();
+        LAST_API.with(|p| *p.borrow_mut() = api_frame(&bt));
     }));
     let mut st = St {
         out_dir: out_dir.clone(),
